@@ -1,10 +1,844 @@
 import PiqpProofs.Basic
 import PiqpModel.KKT
+import Mathlib.Tactic.Ring
+import Mathlib.Tactic.FieldSimp
+import Mathlib.Tactic.Linarith
+import Mathlib.Tactic.LinearCombination
+import Mathlib.Algebra.BigOperators.Fin
+import Mathlib.Algebra.BigOperators.Ring.Finset
+import Mathlib.Algebra.Order.Field.Basic
+
+/-!
+# C13 — every KKT back end solves the same full regularised Newton system
+
+`KKT.solve` (PiqpModel/KKT.lean) reduces the right-hand side, applies the stored inner factorisation and recovers the
+eliminated variables; `KKT.multiply` is the full un-eliminated operator of the regularised Newton system.  The main
+theorem `solve_solves_full_system` says, for **every** back end (dense, sparse full / eq-eliminated / ineq-eliminated /
+all-eliminated), every dimension, every data, every box pattern and every interior scaling: if the reduced matrix is
+coherent with the data (`Coherent`, established for `init`, `update_scalings` and `update_data` below) and the inner
+factorisation solves the reduced system it was given (`InnerExact`; C14 proves this for the LDLᵀ recursion), then
+`multiply (solve rhs) = rhs` on every row, and the inactive box tails are left as they were.
+-/
+
+set_option linter.unusedSectionVars false
+set_option linter.unusedSimpArgs false
+set_option linter.unusedVariables false
 
 namespace Piqp.C13
+open Finset
+variable {K : Type} [Field K] [LinearOrder K]
+variable {n p m : Nat}
 
-/-- placeholder obligation while the elimination theorems are being written -/
-theorem sumFin_is_sum {K : Type} [AddCommMonoid K] (n : Nat) (f : Fin n → K) :
-    sumFin n f = Finset.univ.sum f := sumFin_eq_sum n f
+@[simp] theorem ofFn_get {α : Type} {n : Nat} (f : Fin n → α) (i : Fin n) : (Vector.ofFn f)[i] = f i := by simp
+
+@[simp] theorem mulVec_get {r c : Nat} (A : Mat K r c) (x : Vec K c) (i : Fin r) :
+    (Mat.mulVec A x)[i] = ∑ j : Fin c, A[i][j] * x[j] := by
+  simp [Mat.mulVec, sumFin_eq_sum]
+
+@[simp] theorem mulVecT_get {r c : Nat} (A : Mat K r c) (y : Vec K r) (j : Fin c) :
+    (Mat.mulVecT A y)[j] = ∑ i : Fin r, A[i][j] * y[i] := by
+  simp [Mat.mulVecT, sumFin_eq_sum]
+
+@[simp] theorem scatter_get (b : BoxSide K n) (f : Fin n → K) (j : Fin n) :
+    (b.scatter f)[j] = ∑ i : Fin n, if b.act i ∧ b.idx[i] = j then f i else 0 := by
+  simp [BoxSide.scatter, sumFin_eq_sum]
+
+@[simp] theorem headUpd_get (b : BoxSide K n) (old : Vec K n) (f : Fin n → K) (i : Fin n) :
+    (b.headUpd old f)[i] = if b.act i then f i else old[i] := by
+  simp [BoxSide.headUpd]
+
+theorem scatter_idx (b : BoxSide K n) (f : Fin n → K → K) (x : Vec K n) (j : Fin n) :
+    (∑ i : Fin n, if b.act i ∧ b.idx[i] = j then f i (x[b.idx[i]]) else 0) =
+    ∑ i : Fin n, if b.act i ∧ b.idx[i] = j then f i (x[j]) else 0 := by
+  apply Finset.sum_congr rfl
+  intro i _
+  split
+  · rename_i h; simp [h.2]
+  · rfl
+
+/-- the inner factorisation solves the reduced system it was given, on the blocks the back end keeps -/
+def InnerExact (be : Backend) (kb : KBlocks K n p m) (slv : SolveFn K n p m) : Prop :=
+  ∀ (rx : Vec K n) (ry : Vec K p) (rz : Vec K m),
+    (∀ j : Fin n, (∑ c : Fin n, kb.xx[j][c] * (slv rx ry rz).1[c])
+        + (if be.keepY then ∑ t : Fin p, kb.xy[j][t] * (slv rx ry rz).2.1[t] else 0)
+        + (if be.keepZ then ∑ t : Fin m, kb.xz[j][t] * (slv rx ry rz).2.2[t] else 0) = rx[j]) ∧
+    (be.keepY = true → ∀ t : Fin p, (∑ j : Fin n, kb.xy[j][t] * (slv rx ry rz).1[j]) + kb.yy[t] * (slv rx ry rz).2.1[t] = ry[t]) ∧
+    (be.keepZ = true → ∀ t : Fin m, (∑ j : Fin n, kb.xz[j][t] * (slv rx ry rz).1[j]) + kb.zz[t] * (slv rx ry rz).2.2[t] = rz[t])
+
+/-- what `update_kkt_box_scalings` adds to the diagonal entry of variable `j` -/
+def boxTerm (d : Data K n p m) (k : KKT K n p m) (j : Fin n) : K :=
+  (∑ a : Fin n, if d.lb.act a ∧ d.lb.idx[a] = j then d.lb.sc[a] * d.lb.sc[a] / (k.zinv_lb[a] * k.s_lb[a] + k.delta) else 0) +
+  (∑ a : Fin n, if d.ub.act a ∧ d.ub.idx[a] = j then d.ub.sc[a] * d.ub.sc[a] / (k.zinv_ub[a] * k.s_ub[a] + k.delta) else 0)
+
+/-- the assembled reduced matrix is the Schur complement of the full regularised Newton matrix for the current data and
+    scalings, and it is what was factorised (no static regularisation) -/
+structure Coherent (be : Backend) (d : Data K n p m) (k : KKT K n p m) : Prop where
+  xx : ∀ i j : Fin n, k.k.xx[i][j] =
+      d.Psym[i][j] + (if i = j then k.rho else 0)
+      + (if be.keepY then 0 else (1 / k.delta) * ∑ t : Fin p, d.AT[i][t] * d.AT[j][t])
+      + (if be.keepZ then 0 else ∑ t : Fin m, d.GT[i][t] * d.GT[j][t] / (k.s[t] * k.zinv[t] + k.delta))
+      + (if i = j then boxTerm d k i else 0)
+  xy : be.keepY = true → k.k.xy = d.AT
+  yy : be.keepY = true → ∀ t : Fin p, k.k.yy[t] = -k.delta
+  xz : be.keepZ = true → k.k.xz = d.GT
+  zz : be.keepZ = true → ∀ t : Fin m, k.k.zz[t] = -(k.s[t] * k.zinv[t]) - k.delta
+
+/-- the scalings are in the interior: nothing the formulas divide by vanishes -/
+structure Interior (d : Data K n p m) (k : KKT K n p m) : Prop where
+  delta : k.delta ≠ 0
+  zinv : ∀ t : Fin m, k.zinv[t] ≠ 0
+  s : ∀ t : Fin m, k.s[t] ≠ 0
+  w : ∀ t : Fin m, k.s[t] * k.zinv[t] + k.delta ≠ 0
+  zinv_lb : ∀ a : Fin n, d.lb.act a → k.zinv_lb[a] ≠ 0
+  s_lb : ∀ a : Fin n, d.lb.act a → k.s_lb[a] ≠ 0
+  w_lb : ∀ a : Fin n, d.lb.act a → k.s_lb[a] * k.zinv_lb[a] + k.delta ≠ 0
+  zinv_ub : ∀ a : Fin n, d.ub.act a → k.zinv_ub[a] ≠ 0
+  s_ub : ∀ a : Fin n, d.ub.act a → k.s_ub[a] ≠ 0
+  w_ub : ∀ a : Fin n, d.ub.act a → k.s_ub[a] * k.zinv_ub[a] + k.delta ≠ 0
+
+
+/-- `KKT.solve` without refinement is: build the reduced right-hand side, apply the stored factorisation, recover -/
+theorem solve_eq_recover (be : Backend) (st : KKTSettings K) (d : Data K n p m) (k : KKT K n p m)
+    (r old out : Step K n p m) (slv : SolveFn K n p m) (hf : k.fsol = some slv)
+    (h : KKT.solve be st d k r old false = some out) :
+    out = recover be d k r old (slv (rxOf be d k r) r.y (zbarOf be k r)) := by
+  unfold KKT.solve at h
+  simp only [hf, Bool.false_and, Bool.false_eq_true, ↓reduceIte, Option.some.injEq] at h
+  exact h.symm
+
+theorem recover_rows_yzs (be : Backend) (d : Data K n p m) (k : KKT K n p m)
+    (r old : Step K n p m) (slv : SolveFn K n p m)
+    (hcoh : Coherent be d k) (hex : InnerExact be k.k slv) (hin : Interior d k) :
+    let out := recover be d k r old (slv (rxOf be d k r) r.y (zbarOf be k r))
+    let back := KKT.multiply d k out old
+    (∀ t : Fin p, back.y[t] = r.y[t]) ∧ (∀ t : Fin m, back.z[t] = r.z[t]) ∧ (∀ t : Fin m, back.s[t] = r.s[t]) := by
+  have hw := hin.w; have hzi := hin.zinv; have hs := hin.s; have hd := hin.delta
+  obtain ⟨hx1, hy1, hz1⟩ := hex (rxOf be d k r) r.y (zbarOf be k r)
+  generalize slv (rxOf be d k r) r.y (zbarOf be k r) = sol at *
+  simp only [KKT.multiply, recover]
+  refine ⟨?_, ?_, ?_⟩
+  · intro t
+    simp only [ofFn_get, mulVecT_get]
+    rcases Bool.eq_false_or_eq_true be.keepY with hY | hY
+    swap
+    · simp only [hY, Bool.false_eq_true, ↓reduceIte, ofFn_get, mulVecT_get]
+      field_simp
+      ring
+    · have h1 := hy1 hY t
+      rw [hcoh.xy hY, hcoh.yy hY t] at h1
+      simp only [hY, ↓reduceIte]
+      linear_combination h1
+  · intro t
+    simp only [ofFn_get, mulVecT_get]
+    rcases Bool.eq_false_or_eq_true be.keepZ with hZ | hZ
+    swap
+    · simp only [zbarOf, hZ, Bool.false_eq_true, ↓reduceIte, ofFn_get, mulVecT_get]
+      have := hw t; have := hzi t; have := hs t
+      by_cases hD : be.isDense = true <;> simp only [hD, if_true, if_false, Bool.false_eq_true] <;> field_simp <;> ring
+    · have h1 := hz1 hZ t
+      rw [hcoh.xz hZ, hcoh.zz hZ t] at h1
+      simp only [zbarOf, hZ, ↓reduceIte, ofFn_get] at h1 ⊢
+      have := hw t; have := hzi t; have := hs t
+      by_cases hD : be.isDense = true <;> simp only [hD, if_true, if_false, Bool.false_eq_true] <;> field_simp <;> linear_combination h1
+  · intro t
+    simp only [ofFn_get]
+    have := hzi t; have := hs t
+    by_cases hD : be.isDense = true <;> simp only [hD, if_true, if_false, Bool.false_eq_true] <;> field_simp <;> ring
+
+theorem recover_rows_box (be : Backend) (d : Data K n p m) (k : KKT K n p m)
+    (r old : Step K n p m) (sol : Vec K n × Vec K p × Vec K m) (hin : Interior d k) :
+    let out := recover be d k r old sol
+    let back := KKT.multiply d k out old
+    (∀ a : Fin n, back.z_lb[a] = if d.lb.act a then r.z_lb[a] else old.z_lb[a]) ∧
+    (∀ a : Fin n, back.s_lb[a] = if d.lb.act a then r.s_lb[a] else old.s_lb[a]) ∧
+    (∀ a : Fin n, back.z_ub[a] = if d.ub.act a then r.z_ub[a] else old.z_ub[a]) ∧
+    (∀ a : Fin n, back.s_ub[a] = if d.ub.act a then r.s_ub[a] else old.s_ub[a]) := by
+  simp only [KKT.multiply, recover]
+  refine ⟨?_, ?_, ?_, ?_⟩ <;> intro a <;> simp only [headUpd_get]
+  · by_cases ha : d.lb.act a <;> simp only [ha, if_true, if_false]
+    have := hin.zinv_lb a ha; have := hin.s_lb a ha; have := hin.w_lb a ha; have := hin.delta
+    have : k.zinv_lb[a] * k.s_lb[a] + k.delta ≠ 0 := by rw [mul_comm]; exact hin.w_lb a ha
+    by_cases hD : be.isDense = true <;> simp only [hD, if_true, if_false, Bool.false_eq_true] <;> field_simp <;> ring
+  · by_cases ha : d.lb.act a <;> simp only [ha, if_true, if_false]
+    have := hin.zinv_lb a ha; have := hin.s_lb a ha; have := hin.w_lb a ha; have := hin.delta
+    have : k.zinv_lb[a] * k.s_lb[a] + k.delta ≠ 0 := by rw [mul_comm]; exact hin.w_lb a ha
+    by_cases hD : be.isDense = true <;> simp only [hD, if_true, if_false, Bool.false_eq_true] <;> field_simp <;> ring
+  · by_cases ha : d.ub.act a <;> simp only [ha, if_true, if_false]
+    have := hin.zinv_ub a ha; have := hin.s_ub a ha; have := hin.w_ub a ha; have := hin.delta
+    have : k.zinv_ub[a] * k.s_ub[a] + k.delta ≠ 0 := by rw [mul_comm]; exact hin.w_ub a ha
+    by_cases hD : be.isDense = true <;> simp only [hD, if_true, if_false, Bool.false_eq_true] <;> field_simp <;> ring
+  · by_cases ha : d.ub.act a <;> simp only [ha, if_true, if_false]
+    have := hin.zinv_ub a ha; have := hin.s_ub a ha; have := hin.w_ub a ha; have := hin.delta
+    have : k.zinv_ub[a] * k.s_ub[a] + k.delta ≠ 0 := by rw [mul_comm]; exact hin.w_ub a ha
+    by_cases hD : be.isDense = true <;> simp only [hD, if_true, if_false, Bool.false_eq_true] <;> field_simp <;> ring
+
+theorem gram_sum {q : Nat} (A : Mat K n q) (c : Fin q → K) (x : Vec K n) (j : Fin n) :
+    (∑ c' : Fin n, (∑ t : Fin q, A[j][t] * A[c'][t] * c t) * x[c']) =
+    ∑ t : Fin q, A[j][t] * (c t * ∑ c' : Fin n, A[c'][t] * x[c']) := by
+  simp only [Finset.sum_mul, Finset.mul_sum]
+  rw [Finset.sum_comm]
+  exact Finset.sum_congr rfl fun t _ => Finset.sum_congr rfl fun c' _ => by ring
+
+theorem sum_ite_affine (c : Fin n → Prop) [DecidablePred c] (g u v : Fin n → K) (x σ τ : K)
+    (h : ∀ a, c a → g a = σ * (u a * x) + τ * v a) :
+    (∑ a : Fin n, if c a then g a else 0) =
+      σ * ((∑ a : Fin n, if c a then u a else 0) * x) + τ * ∑ a : Fin n, if c a then v a else 0 := by
+  rw [Finset.sum_mul, Finset.mul_sum, Finset.mul_sum, ← Finset.sum_add_distrib]
+  refine Finset.sum_congr rfl fun a _ => ?_
+  by_cases hc : c a
+  · simp only [hc, if_true, h a hc]
+  · simp only [hc, if_false]; ring
+
+theorem xx_apply (be : Backend) (d : Data K n p m) (k : KKT K n p m) (hcoh : Coherent be d k) (x : Vec K n) (j : Fin n) :
+    (∑ c : Fin n, k.k.xx[j][c] * x[c]) =
+      (∑ c : Fin n, d.Psym[j][c] * x[c]) + k.rho * x[j]
+      + (if be.keepY then 0 else (1 / k.delta) * ∑ t : Fin p, d.AT[j][t] * ∑ c : Fin n, d.AT[c][t] * x[c])
+      + (if be.keepZ then 0 else ∑ t : Fin m, d.GT[j][t] * ((1 / (k.s[t] * k.zinv[t] + k.delta)) * ∑ c : Fin n, d.GT[c][t] * x[c]))
+      + boxTerm d k j * x[j] := by
+  have hA := gram_sum d.AT (fun _ => 1) x j
+  have hG := gram_sum d.GT (fun t => 1 / (k.s[t] * k.zinv[t] + k.delta)) x j
+  simp only [mul_one_div] at hG
+  simp only [mul_one, one_mul] at hA
+  simp only [hcoh.xx, add_mul, Finset.sum_add_distrib, ite_mul, zero_mul, Finset.sum_ite_eq, Finset.mem_univ, if_true]
+  rcases Bool.eq_false_or_eq_true be.keepY with hY | hY <;> rcases Bool.eq_false_or_eq_true be.keepZ with hZ | hZ <;>
+    simp only [hY, hZ, if_true, if_false, Bool.false_eq_true, Finset.sum_const_zero, add_zero,
+      mul_assoc (1 / k.delta), ← Finset.mul_sum, hA, hG]
+
+theorem box_lb_sum (be : Backend) (d : Data K n p m) (k : KKT K n p m) (r old : Step K n p m) (x : Vec K n)
+    (hin : Interior d k) (j : Fin n) :
+    (∑ a : Fin n, if d.lb.act a ∧ d.lb.idx[a] = j then
+        d.lb.sc[a] * (if d.lb.act a then
+        (if be.isDense then
+          (-d.lb.sc[a] * x[d.lb.idx[a]] - r.z_lb[a] + k.zinv_lb[a] * r.s_lb[a]) / (k.s_lb[a] * k.zinv_lb[a] + k.delta)
+        else
+          ((-d.lb.sc[a] * x[d.lb.idx[a]] - r.z_lb[a]) / k.zinv_lb[a] + r.s_lb[a]) / (k.s_lb[a] + k.delta / k.zinv_lb[a]))
+        else old.z_lb[a]) else 0) =
+    -1 * ((∑ a : Fin n, if d.lb.act a ∧ d.lb.idx[a] = j then d.lb.sc[a] * d.lb.sc[a] / (k.zinv_lb[a] * k.s_lb[a] + k.delta) else 0) * x[j])
+    + -1 * ∑ a : Fin n, if d.lb.act a ∧ d.lb.idx[a] = j then
+        d.lb.sc[a] * (r.z_lb[a] - k.zinv_lb[a] * r.s_lb[a]) / (k.s_lb[a] * k.zinv_lb[a] + k.delta) else 0 := by
+  refine sum_ite_affine (fun a => d.lb.act a ∧ d.lb.idx[a] = j) _
+    (fun a => d.lb.sc[a] * d.lb.sc[a] / (k.zinv_lb[a] * k.s_lb[a] + k.delta))
+    (fun a => d.lb.sc[a] * (r.z_lb[a] - k.zinv_lb[a] * r.s_lb[a]) / (k.s_lb[a] * k.zinv_lb[a] + k.delta))
+    x[j] (-1) (-1) ?_
+  intro a ⟨ha, hj⟩
+  have := hin.zinv_lb a ha; have := hin.s_lb a ha; have := hin.w_lb a ha
+  have : k.zinv_lb[a] * k.s_lb[a] + k.delta ≠ 0 := by rw [mul_comm]; exact hin.w_lb a ha
+  simp only [ha, if_true, hj]
+  by_cases hD : be.isDense = true <;> simp only [hD, if_true, if_false, Bool.false_eq_true] <;> field_simp <;> ring
+
+theorem box_ub_sum (be : Backend) (d : Data K n p m) (k : KKT K n p m) (r old : Step K n p m) (x : Vec K n)
+    (hin : Interior d k) (j : Fin n) :
+    (∑ a : Fin n, if d.ub.act a ∧ d.ub.idx[a] = j then
+        d.ub.sc[a] * (if d.ub.act a then
+        (if be.isDense then
+          (d.ub.sc[a] * x[d.ub.idx[a]] - r.z_ub[a] + k.zinv_ub[a] * r.s_ub[a]) / (k.s_ub[a] * k.zinv_ub[a] + k.delta)
+        else
+          ((d.ub.sc[a] * x[d.ub.idx[a]] - r.z_ub[a]) / k.zinv_ub[a] + r.s_ub[a]) / (k.s_ub[a] + k.delta / k.zinv_ub[a]))
+        else old.z_ub[a]) else 0) =
+    1 * ((∑ a : Fin n, if d.ub.act a ∧ d.ub.idx[a] = j then d.ub.sc[a] * d.ub.sc[a] / (k.zinv_ub[a] * k.s_ub[a] + k.delta) else 0) * x[j])
+    + -1 * ∑ a : Fin n, if d.ub.act a ∧ d.ub.idx[a] = j then
+        d.ub.sc[a] * (r.z_ub[a] - k.zinv_ub[a] * r.s_ub[a]) / (k.s_ub[a] * k.zinv_ub[a] + k.delta) else 0 := by
+  refine sum_ite_affine (fun a => d.ub.act a ∧ d.ub.idx[a] = j) _
+    (fun a => d.ub.sc[a] * d.ub.sc[a] / (k.zinv_ub[a] * k.s_ub[a] + k.delta))
+    (fun a => d.ub.sc[a] * (r.z_ub[a] - k.zinv_ub[a] * r.s_ub[a]) / (k.s_ub[a] * k.zinv_ub[a] + k.delta))
+    x[j] 1 (-1) ?_
+  intro a ⟨ha, hj⟩
+  have := hin.zinv_ub a ha; have := hin.s_ub a ha; have := hin.w_ub a ha
+  have : k.zinv_ub[a] * k.s_ub[a] + k.delta ≠ 0 := by rw [mul_comm]; exact hin.w_ub a ha
+  simp only [ha, if_true, hj]
+  by_cases hD : be.isDense = true <;> simp only [hD, if_true, if_false, Bool.false_eq_true] <;> field_simp <;> ring
+
+theorem recover_row_x (be : Backend) (d : Data K n p m) (k : KKT K n p m)
+    (r old : Step K n p m) (slv : SolveFn K n p m)
+    (hcoh : Coherent be d k) (hex : InnerExact be k.k slv) (hin : Interior d k) :
+    let out := recover be d k r old (slv (rxOf be d k r) r.y (zbarOf be k r))
+    let back := KKT.multiply d k out old
+    ∀ j : Fin n, back.x[j] = r.x[j] := by
+  have hw := hin.w; have hd := hin.delta
+  obtain ⟨hx1, hy1, hz1⟩ := hex (rxOf be d k r) r.y (zbarOf be k r)
+  generalize slv (rxOf be d k r) r.y (zbarOf be k r) = sol at *
+  intro out back j
+  have hx := hx1 j
+  clear hx1
+  simp only [rxOf, ofFn_get, mulVec_get, scatter_get] at hx
+  simp only [back, out, KKT.multiply, recover, ofFn_get, mulVec_get, scatter_get, headUpd_get]
+  rw [box_lb_sum be d k r old sol.1 hin j, box_ub_sum be d k r old sol.1 hin j]
+  have hxx := xx_apply be d k hcoh sol.1 j
+  simp only [boxTerm] at hxx
+  rcases Bool.eq_false_or_eq_true be.keepY with hY | hY <;> rcases Bool.eq_false_or_eq_true be.keepZ with hZ | hZ <;>
+    simp only [hY, hZ, if_true, if_false, Bool.false_eq_true, add_zero, ofFn_get, mulVecT_get] at hx hxx ⊢
+  · rw [hcoh.xy hY, hcoh.xz hZ] at hx
+    linear_combination hx - hxx
+  · rw [hcoh.xy hY] at hx
+    have e : (∑ x : Fin m, d.GT[j][x] * ((∑ i : Fin n, d.GT[i][x] * sol.1[i]) / (k.s[x] * k.zinv[x] + k.delta) - (zbarOf be k r)[x]))
+        = (∑ t : Fin m, d.GT[j][t] * (1 / (k.s[t] * k.zinv[t] + k.delta) * ∑ c : Fin n, d.GT[c][t] * sol.1[c]))
+          - ∑ t : Fin m, d.GT[j][t] * (zbarOf be k r)[t] := by
+      rw [← Finset.sum_sub_distrib]
+      exact Finset.sum_congr rfl fun x _ => by ring
+    rw [e]
+    linear_combination hx - hxx
+  · rw [hcoh.xz hZ] at hx
+    have e : (∑ x : Fin p, d.AT[j][x] * (1 / k.delta * (∑ i : Fin n, d.AT[i][x] * sol.1[i]) - 1 / k.delta * r.y[x]))
+        = (1 / k.delta * ∑ t : Fin p, d.AT[j][t] * ∑ c : Fin n, d.AT[c][t] * sol.1[c])
+          - 1 / k.delta * ∑ t : Fin p, d.AT[j][t] * r.y[t] := by
+      rw [Finset.mul_sum, Finset.mul_sum, ← Finset.sum_sub_distrib]
+      exact Finset.sum_congr rfl fun x _ => by ring
+    rw [e]
+    linear_combination hx - hxx
+  · have e : (∑ x : Fin m, d.GT[j][x] * ((∑ i : Fin n, d.GT[i][x] * sol.1[i]) / (k.s[x] * k.zinv[x] + k.delta) - (zbarOf be k r)[x]))
+        = (∑ t : Fin m, d.GT[j][t] * (1 / (k.s[t] * k.zinv[t] + k.delta) * ∑ c : Fin n, d.GT[c][t] * sol.1[c]))
+          - ∑ t : Fin m, d.GT[j][t] * (zbarOf be k r)[t] := by
+      rw [← Finset.sum_sub_distrib]
+      exact Finset.sum_congr rfl fun x _ => by ring
+    have e2 : (∑ x : Fin p, d.AT[j][x] * (1 / k.delta * (∑ i : Fin n, d.AT[i][x] * sol.1[i]) - 1 / k.delta * r.y[x]))
+        = (1 / k.delta * ∑ t : Fin p, d.AT[j][t] * ∑ c : Fin n, d.AT[c][t] * sol.1[c])
+          - 1 / k.delta * ∑ t : Fin p, d.AT[j][t] * r.y[t] := by
+      rw [Finset.mul_sum, Finset.mul_sum, ← Finset.sum_sub_distrib]
+      exact Finset.sum_congr rfl fun x _ => by ring
+    rw [e, e2]
+    linear_combination hx - hxx
+
+/-- **C13, elimination is exact.**  For every back end: the step returned by `KKT.solve` (no refinement), pushed through
+    the full regularised Newton operator `KKT.multiply`, reproduces the right-hand side on every row; inactive box
+    tails keep their old content. -/
+theorem solve_solves_full_system (be : Backend) (st : KKTSettings K) (d : Data K n p m) (k : KKT K n p m)
+    (r old out : Step K n p m) (slv : SolveFn K n p m)
+    (hf : k.fsol = some slv) (hcoh : Coherent be d k) (hex : InnerExact be k.k slv) (hin : Interior d k)
+    (h : KKT.solve be st d k r old false = some out) :
+    let back := KKT.multiply d k out old
+    (∀ j : Fin n, back.x[j] = r.x[j]) ∧ (∀ t : Fin p, back.y[t] = r.y[t]) ∧ (∀ t : Fin m, back.z[t] = r.z[t]) ∧
+    (∀ t : Fin m, back.s[t] = r.s[t]) ∧
+    (∀ a : Fin n, back.z_lb[a] = if d.lb.act a then r.z_lb[a] else old.z_lb[a]) ∧
+    (∀ a : Fin n, back.s_lb[a] = if d.lb.act a then r.s_lb[a] else old.s_lb[a]) ∧
+    (∀ a : Fin n, back.z_ub[a] = if d.ub.act a then r.z_ub[a] else old.z_ub[a]) ∧
+    (∀ a : Fin n, back.s_ub[a] = if d.ub.act a then r.s_ub[a] else old.s_ub[a]) := by
+  have e := solve_eq_recover be st d k r old out slv hf h
+  subst e
+  have hx := recover_row_x be d k r old slv hcoh hex hin
+  have hyzs := recover_rows_yzs be d k r old slv hcoh hex hin
+  have hb := recover_rows_box be d k r old (slv (rxOf be d k r) r.y (zbarOf be k r)) hin
+  exact ⟨hx, hyzs.1, hyzs.2.1, hyzs.2.2, hb.1, hb.2.1, hb.2.2.1, hb.2.2.2⟩
+
+
+/-! ## Caches: refreshing in place yields the same system as building it anew -/
+
+
+@[simp] theorem matOfFn_get {r c : Nat} (f : Fin r → Fin c → K) (i : Fin r) (j : Fin c) : (Mat.ofFn f)[i][j] = f i j := by
+  simp [Mat.ofFn]
+
+@[simp] theorem vecConst_get {q : Nat} (a : K) (i : Fin q) : (Vec.const q a)[i] = a := by
+  simp [Vec.const]
+
+@[simp] theorem transpose_get {r c : Nat} (A : Mat K r c) (i : Fin r) (j : Fin c) : (Mat.transpose A)[j][i] = A[i][j] := by
+  simp only [Mat.transpose, matOfFn_get]
+
+theorem boxDiag_get (d : Data K n p m) (k : KKT K n p m) (j : Fin n) :
+    (boxDiag d k.zinv_lb k.s_lb k.zinv_ub k.s_ub k.delta)[j] = boxTerm d k j := by
+  simp only [boxDiag, boxDiagSide, boxTerm, ofFn_get, scatter_get]
+
+theorem mkATA_get (ac : Mat K p n) (AT : Mat K n p) (h : ∀ (t : Fin p) (j : Fin n), ac[t][j] = AT[j][t]) (i j : Fin n) :
+    (mkATA ac AT)[i][j] = ∑ t : Fin p, AT[i][t] * AT[j][t] := by
+  simp only [mkATA, symUpper, matOfFn_get, sumFin_eq_sum, h]
+  split
+  · exact Finset.sum_congr rfl fun t _ => by ring
+  · rfl
+
+theorem mkGWG_get (gc : Mat K m n) (GT : Mat K n m) (s zinv : Vec K m) (delta : K)
+    (h : ∀ (t : Fin m) (j : Fin n), gc[t][j] = GT[j][t]) (i j : Fin n) :
+    (mkGWG gc GT s zinv delta)[i][j] = ∑ t : Fin m, GT[i][t] * GT[j][t] / (s[t] * zinv[t] + delta) := by
+  simp only [mkGWG, symUpper, matOfFn_get, sumFin_eq_sum, h]
+  split
+  · exact Finset.sum_congr rfl fun t _ => by ring
+  · exact Finset.sum_congr rfl fun t _ => by ring
+
+/-- the caches a back end keeps between calls agree with the current data -/
+structure CachesOk (be : Backend) (d : Data K n p m) (k : KKT K n p m) : Prop where
+  ata : be.keepY = false → ∀ i j : Fin n, k.ata[i][j] = ∑ t : Fin p, d.AT[i][t] * d.AT[j][t]
+  gc : be.keepZ = false → be.isDense = false → ∀ (t : Fin m) (j : Fin n), k.gc[t][j] = d.GT[j][t]
+  full_pdiag : be = .full → ∀ j : Fin n, k.pdiag[j] = d.P[j][j]
+  full_off : be = .full → ∀ i j : Fin n, i ≠ j → k.k.xx[i][j] = d.Psym[i][j]
+  full_xy : be = .full → k.k.xy = d.AT
+  full_xz : be = .full → k.k.xz = d.GT
+
+theorem refresh_coherent (be : Backend) (d : Data K n p m) (k : KKT K n p m) (hc : CachesOk be d k) :
+    Coherent be d (KKT.refresh be d k) := by
+  have hbox := boxDiag_get d k
+  simp only [boxTerm] at hbox
+  cases be
+  · -- dense
+    have hata := hc.ata rfl
+    refine ⟨?_, fun h => by simp [Backend.keepY] at h, fun h => by simp [Backend.keepY] at h,
+      fun h => by simp [Backend.keepZ] at h, fun h => by simp [Backend.keepZ] at h⟩
+    intro i j
+    have hG : (∑ t : Fin m, d.GT[i][t] * (1 / (k.zinv[t] * k.s[t] + k.delta) * d.GT[j][t])) =
+        ∑ t : Fin m, d.GT[i][t] * d.GT[j][t] / (k.s[t] * k.zinv[t] + k.delta) :=
+      Finset.sum_congr rfl fun t _ => by ring
+    simp only [KKT.refresh, denseKxx, Backend.keepY, Backend.keepZ, Bool.false_eq_true, if_false, boxTerm]
+    have hA0 : p = 0 → (∑ t : Fin p, d.AT[i][t] * d.AT[j][t]) = 0 := by intro h; subst h; simp
+    have hG0 : m = 0 → (∑ t : Fin m, d.GT[i][t] * d.GT[j][t] / (k.s[t] * k.zinv[t] + k.delta)) = 0 := by intro h; subst h; simp
+    by_cases hp : p = 0 <;> by_cases hm : m = 0 <;>
+      simp only [hp, hm, if_true, if_false, addDiag, matAdd, matScale, matOfFn_get, vecConst_get, sumFin_eq_sum, hata, hbox,
+        hG] <;>
+      (try rw [hA0 hp]) <;> (try rw [hG0 hm]) <;>
+      by_cases hij : i = j <;> simp only [hij, if_true, if_false] <;> ring
+  · -- full
+    have hpd := hc.full_pdiag rfl; have hoff := hc.full_off rfl; have hxy := hc.full_xy rfl; have hxz := hc.full_xz rfl
+    refine ⟨?_, fun _ => ?_, fun _ t => ?_, fun _ => ?_, fun _ t => ?_⟩
+    · intro i j
+      simp only [KKT.refresh, Backend.keepY, Backend.keepZ, if_true, boxTerm, setDiag, matOfFn_get, ofFn_get, hbox, hpd, add_zero]
+      by_cases hij : i = j
+      · subst hij; simp only [if_true, Data.Psym, matOfFn_get, le_refl]
+      · simp only [hij, if_false, hoff i j hij]; ring
+    · simpa [KKT.refresh] using hxy
+    · simp only [KKT.refresh, negDelta, vecConst_get]
+    · simpa [KKT.refresh] using hxz
+    · simp only [KKT.refresh, zzDiag, ofFn_get]; ring
+  · -- eq eliminated: keeps z
+    have hata := hc.ata rfl
+    refine ⟨?_, fun h => by simp [Backend.keepY] at h, fun h => by simp [Backend.keepY] at h, fun _ => ?_, fun _ t => ?_⟩
+    · intro i j
+      simp only [KKT.refresh, topLeft, Backend.keepY, Backend.keepZ, Bool.false_eq_true, if_true, if_false, addDiag, matAdd, matScale,
+        matOfFn_get, vecConst_get, hata, hbox, boxTerm]
+      by_cases hij : i = j <;> simp only [hij, if_true, if_false] <;> ring
+    · simp [KKT.refresh, Backend.keepZ]
+    · simp only [KKT.refresh, zzDiag, ofFn_get]; ring
+  · -- ineq eliminated: keeps y
+    have hgc := hc.gc rfl rfl
+    refine ⟨?_, fun _ => ?_, fun _ t => ?_, fun h => by simp [Backend.keepZ] at h, fun h => by simp [Backend.keepZ] at h⟩
+    · intro i j
+      simp only [KKT.refresh, topLeft, Backend.keepY, Backend.keepZ, Bool.false_eq_true, if_true, if_false, addDiag, matAdd, matScale,
+        matOfFn_get, vecConst_get, mkGWG_get _ _ _ _ _ hgc, hbox, boxTerm]
+      by_cases hij : i = j <;> simp only [hij, if_true, if_false] <;> ring
+    · simp [KKT.refresh, Backend.keepY]
+    · simp only [KKT.refresh, negDelta, vecConst_get]
+  · -- all eliminated
+    have hata := hc.ata rfl
+    have hgc := hc.gc rfl rfl
+    refine ⟨?_, fun h => by simp [Backend.keepY] at h, fun h => by simp [Backend.keepY] at h,
+      fun h => by simp [Backend.keepZ] at h, fun h => by simp [Backend.keepZ] at h⟩
+    intro i j
+    simp only [KKT.refresh, topLeft, Backend.keepY, Backend.keepZ, Bool.false_eq_true, if_true, if_false, addDiag, matAdd, matScale,
+      matOfFn_get, vecConst_get, hata, mkGWG_get _ _ _ _ _ hgc, hbox, boxTerm]
+    by_cases hij : i = j <;> simp only [hij, if_true, if_false] <;> ring
+
+theorem CachesOk.transfer {be : Backend} {d : Data K n p m} {k k' : KKT K n p m} (hc : CachesOk be d k)
+    (h1 : k'.ata = k.ata) (h2 : k'.gc = k.gc) (h3 : k'.pdiag = k.pdiag)
+    (h4 : be = .full → ∀ i j : Fin n, i ≠ j → k'.k.xx[i][j] = k.k.xx[i][j])
+    (h5 : be = .full → k'.k.xy = k.k.xy) (h6 : be = .full → k'.k.xz = k.k.xz) : CachesOk be d k' where
+  ata := by rw [h1]; exact hc.ata
+  gc := by rw [h2]; exact hc.gc
+  full_pdiag := by rw [h3]; exact hc.full_pdiag
+  full_off := fun hb i j hij => by rw [h4 hb i j hij]; exact hc.full_off hb i j hij
+  full_xy := fun hb => by rw [h5 hb]; exact hc.full_xy hb
+  full_xz := fun hb => by rw [h6 hb]; exact hc.full_xz hb
+
+theorem refresh_cachesOk (be : Backend) (d : Data K n p m) (k : KKT K n p m) (hc : CachesOk be d k) :
+    CachesOk be d (KKT.refresh be d k) := by
+  cases be
+  · exact hc.transfer rfl rfl rfl (fun h => by cases h) (fun h => by cases h) (fun h => by cases h)
+  · refine hc.transfer rfl rfl rfl (fun _ i j hij => ?_) (fun _ => rfl) (fun _ => rfl)
+    simp only [KKT.refresh, setDiag, matOfFn_get, hij, if_false]
+  · exact hc.transfer rfl rfl rfl (fun h => by cases h) (fun h => by cases h) (fun h => by cases h)
+  · exact hc.transfer rfl rfl rfl (fun h => by cases h) (fun h => by cases h) (fun h => by cases h)
+  · exact hc.transfer rfl rfl rfl (fun h => by cases h) (fun h => by cases h) (fun h => by cases h)
+
+/-- `update_scalings` never touches what `CachesOk` talks about, so it re-establishes coherence for the new scalings -/
+theorem updateScalings_coherent (be : Backend) (d : Data K n p m) (k : KKT K n p m) (rho delta : K)
+    (s : Vec K m) (s_lb s_ub : Vec K n) (z : Vec K m) (z_lb z_ub : Vec K n) (hc : CachesOk be d k) :
+    Coherent be d (KKT.updateScalings be d k rho delta s s_lb s_ub z z_lb z_ub) ∧
+    CachesOk be d (KKT.updateScalings be d k rho delta s s_lb s_ub z z_lb z_ub) := by
+  unfold KKT.updateScalings
+  exact ⟨refresh_coherent be d _ (hc.transfer rfl rfl rfl (fun _ _ _ _ => rfl) (fun _ => rfl) (fun _ => rfl)),
+         refresh_cachesOk be d _ (hc.transfer rfl rfl rfl (fun _ _ _ _ => rfl) (fun _ => rfl) (fun _ => rfl))⟩
+
+theorem denseATA_get (d : Data K n p m) (i j : Fin n) : (denseATA d)[i][j] = ∑ t : Fin p, d.AT[i][t] * d.AT[j][t] := by
+  simp only [denseATA, matOfFn_get, sumFin_eq_sum]
+
+/-- `init` builds caches that agree with the data -/
+theorem init_cachesOk (be : Backend) (d : Data K n p m) (rho delta : K) (o1 o2 o3 o4 : Vec K n) :
+    CachesOk be d (KKT.init be d rho delta o1 o2 o3 o4) := by
+  cases be
+  · refine ⟨fun _ i j => ?_, fun _ h => by simp [Backend.isDense] at h, (fun h => by cases h), (fun h => by cases h),
+      (fun h => by cases h), (fun h => by cases h)⟩
+    simp only [KKT.init]
+    by_cases hp : p = 0
+    · subst hp; simp only [if_true, matOfFn_get, Finset.univ_eq_empty, Finset.sum_empty]
+    · simp only [hp, if_false, denseATA_get]
+  · refine ⟨fun h => by simp [Backend.keepY] at h, fun h => by simp [Backend.keepZ] at h, fun _ j => ?_, fun _ i j hij => ?_,
+      fun _ => rfl, fun _ => rfl⟩
+    · simp only [KKT.init, ofFn_get]
+    · simp only [KKT.init, topLeft, Backend.keepY, Backend.keepZ, if_true, addDiag, matOfFn_get, hij, if_false]
+  · refine ⟨fun _ i j => ?_, fun h => by simp [Backend.keepZ] at h, (fun h => by cases h), (fun h => by cases h),
+      (fun h => by cases h), (fun h => by cases h)⟩
+    simp only [KKT.init, Backend.keepY, Bool.false_eq_true, if_false]
+    exact mkATA_get _ _ (fun t j => transpose_get d.AT j t) i j
+  · refine ⟨fun h => by simp [Backend.keepY] at h, fun _ _ t j => ?_, (fun h => by cases h), (fun h => by cases h),
+      (fun h => by cases h), (fun h => by cases h)⟩
+    simp only [KKT.init]; exact transpose_get d.GT j t
+  · refine ⟨fun _ i j => ?_, fun _ _ t j => ?_, (fun h => by cases h), (fun h => by cases h),
+      (fun h => by cases h), (fun h => by cases h)⟩
+    · simp only [KKT.init, Backend.keepY, Bool.false_eq_true, if_false]
+      exact mkATA_get _ _ (fun t j => transpose_get d.AT j t) i j
+    · simp only [KKT.init]; exact transpose_get d.GT j t
+
+theorem boxDiag_get' (d : Data K n p m) (zl sl zu su : Vec K n) (delta : K) (j : Fin n) :
+    (boxDiag d zl sl zu su delta)[j] =
+      (∑ a : Fin n, if d.lb.act a ∧ d.lb.idx[a] = j then d.lb.sc[a] * d.lb.sc[a] / (zl[a] * sl[a] + delta) else 0) +
+      (∑ a : Fin n, if d.ub.act a ∧ d.ub.idx[a] = j then d.ub.sc[a] * d.ub.sc[a] / (zu[a] * su[a] + delta) else 0) := by
+  simp only [boxDiag, boxDiagSide, ofFn_get, scatter_get]
+
+/-- `init` assembles a coherent reduced matrix (for the unit scalings it installs) -/
+theorem init_coherent (be : Backend) (d : Data K n p m) (rho delta : K) (o1 o2 o3 o4 : Vec K n) :
+    Coherent be d (KKT.init be d rho delta o1 o2 o3 o4) := by
+  have hata : ∀ i j : Fin n, (mkATA (Mat.transpose d.AT) d.AT)[i][j] = ∑ t : Fin p, d.AT[i][t] * d.AT[j][t] :=
+    mkATA_get _ _ (fun t j => transpose_get d.AT j t)
+  have hgwg : ∀ i j : Fin n, (mkGWG (Mat.transpose d.GT) d.GT (Vec.const m 1) (Vec.const m 1) 0)[i][j] =
+      ∑ t : Fin m, d.GT[i][t] * d.GT[j][t] / ((Vec.const m (1:K))[t] * (Vec.const m (1:K))[t] + 0) :=
+    mkGWG_get _ _ _ _ _ (fun t j => transpose_get d.GT j t)
+  cases be
+  · refine ⟨?_, fun h => by simp [Backend.keepY] at h, fun h => by simp [Backend.keepY] at h,
+      fun h => by simp [Backend.keepZ] at h, fun h => by simp [Backend.keepZ] at h⟩
+    intro i j
+    have hG : (∑ t : Fin m, d.GT[i][t] * (1 / ((1:K) * 1 + delta) * d.GT[j][t])) =
+        ∑ t : Fin m, d.GT[i][t] * d.GT[j][t] / ((1:K) * 1 + delta) :=
+      Finset.sum_congr rfl fun t _ => by ring
+    have hA0 : p = 0 → (∑ t : Fin p, d.AT[i][t] * d.AT[j][t]) = 0 := by intro h; subst h; simp
+    have hG0 : m = 0 → (∑ t : Fin m, d.GT[i][t] * d.GT[j][t] / ((1:K) * 1 + delta)) = 0 := by intro h; subst h; simp
+    simp only [KKT.init, denseKxx, Backend.keepY, Backend.keepZ, Bool.false_eq_true, if_false, boxTerm]
+    by_cases hp : p = 0 <;> by_cases hm : m = 0 <;>
+      simp only [hp, hm, if_true, if_false, addDiag, matAdd, matScale, matOfFn_get, vecConst_get, sumFin_eq_sum, denseATA_get,
+        boxDiag_get', hG] <;>
+      (try rw [hA0 hp]) <;> (try rw [hG0 hm]) <;>
+      by_cases hij : i = j <;> simp only [hij, if_true, if_false] <;> ring
+  · refine ⟨?_, fun _ => rfl, fun _ t => ?_, fun _ => rfl, fun _ t => ?_⟩
+    · intro i j
+      simp only [KKT.init, topLeft, Backend.keepY, Backend.keepZ, if_true, boxTerm, addDiag, matOfFn_get, vecConst_get,
+        boxDiag_get', add_zero]
+      by_cases hij : i = j <;> simp only [hij, if_true, if_false] <;> ring
+    · simp only [KKT.init, negDelta, vecConst_get]
+    · simp only [KKT.init, ofFn_get, vecConst_get]; ring
+  · -- eq eliminated
+    refine ⟨?_, fun h => by simp [Backend.keepY] at h, fun h => by simp [Backend.keepY] at h, fun _ => rfl, fun _ t => ?_⟩
+    · intro i j
+      simp only [KKT.init, topLeft, Backend.keepY, Backend.keepZ, Bool.false_eq_true, if_true, if_false, addDiag, matAdd, matScale,
+        matOfFn_get, vecConst_get, hata, boxDiag_get', boxTerm]
+      by_cases hij : i = j <;> simp only [hij, if_true, if_false] <;> ring
+    · simp only [KKT.init, ofFn_get, vecConst_get]; ring
+  · -- ineq eliminated
+    refine ⟨?_, fun _ => rfl, fun _ t => ?_, fun h => by simp [Backend.keepZ] at h, fun h => by simp [Backend.keepZ] at h⟩
+    · intro i j
+      have hG : (1 / (1 + delta)) * (∑ t : Fin m, d.GT[i][t] * d.GT[j][t] / ((1:K) * 1 + 0)) =
+          ∑ t : Fin m, d.GT[i][t] * d.GT[j][t] / ((1:K) * 1 + delta) := by
+        rw [Finset.mul_sum]; exact Finset.sum_congr rfl fun t _ => by ring
+      simp only [KKT.init, topLeft, Backend.keepY, Backend.keepZ, Bool.false_eq_true, if_true, if_false, addDiag, matAdd, matScale,
+        matOfFn_get, vecConst_get, hgwg, hG, boxDiag_get', boxTerm]
+      by_cases hij : i = j <;> simp only [hij, if_true, if_false] <;> ring
+    · simp only [KKT.init, negDelta, vecConst_get]
+  · -- all eliminated
+    refine ⟨?_, fun h => by simp [Backend.keepY] at h, fun h => by simp [Backend.keepY] at h,
+      fun h => by simp [Backend.keepZ] at h, fun h => by simp [Backend.keepZ] at h⟩
+    intro i j
+    have hG : (1 / (1 + delta)) * (∑ t : Fin m, d.GT[i][t] * d.GT[j][t] / ((1:K) * 1 + 0)) =
+        ∑ t : Fin m, d.GT[i][t] * d.GT[j][t] / ((1:K) * 1 + delta) := by
+      rw [Finset.mul_sum]; exact Finset.sum_congr rfl fun t _ => by ring
+    simp only [KKT.init, topLeft, Backend.keepY, Backend.keepZ, Bool.false_eq_true, if_true, if_false, addDiag, matAdd, matScale,
+      matOfFn_get, vecConst_get, hata, hgwg, hG, boxDiag_get', boxTerm]
+    by_cases hij : i = j <;> simp only [hij, if_true, if_false] <;> ring
+
+/-- `Coherent` and `CachesOk` read only `P`, `AT`, `GT` and the box packing of the data -/
+theorem Coherent.congr_data {be : Backend} {d d0 : Data K n p m} {k : KKT K n p m}
+    (h1 : d.P = d0.P) (h2 : d.AT = d0.AT) (h3 : d.GT = d0.GT) (h4 : d.lb = d0.lb) (h5 : d.ub = d0.ub)
+    (h : Coherent be d0 k) : Coherent be d k := by
+  cases d; cases d0
+  simp only at h1 h2 h3 h4 h5
+  subst h1 h2 h3 h4 h5
+  exact ⟨h.xx, h.xy, h.yy, h.xz, h.zz⟩
+
+/-- what a caller of `update_data(options)` owes: every block that changed is flagged -/
+structure Flagged (d d0 : Data K n p m) (optP optA optG : Bool) : Prop where
+  hP : optP = false → d.P = d0.P
+  hA : optA = false → d.AT = d0.AT
+  hG : optG = false → d.GT = d0.GT
+
+theorem updateData_ok (be : Backend) (d d0 : Data K n p m) (k : KKT K n p m) (optP optA optG : Bool)
+    (hf : Flagged d d0 optP optA optG) (hc : CachesOk be d0 k) :
+    CachesOk be d (KKT.updateData be d k optP optA optG) ∧
+    (d.lb = d0.lb → d.ub = d0.ub → Coherent be d0 k → Coherent be d (KKT.updateData be d k optP optA optG)) := by
+  have hnone : ∀ {x : KKT K n p m}, Coherent be d0 x → (optP || optA || optG) = false → d.lb = d0.lb → d.ub = d0.ub → Coherent be d x := by
+    intro x hx hany hl hu
+    simp only [Bool.or_eq_false_iff] at hany
+    exact hx.congr_data (hf.hP hany.1.1) (hf.hA hany.1.2) (hf.hG hany.2) hl hu
+  have sumA : optA = false → ∀ i j : Fin n, (∑ t : Fin p, d0.AT[i][t] * d0.AT[j][t]) = ∑ t : Fin p, d.AT[i][t] * d.AT[j][t] := by
+    intro h i j; rw [hf.hA h]
+  cases be
+  · -- dense
+    have h1 : CachesOk .dense d (if (optA && decide (p ≠ 0)) = true then { k with ata := denseATA d } else k) := by
+      refine ⟨fun _ i j => ?_, fun _ h => by simp [Backend.isDense] at h, (fun h => by cases h), (fun h => by cases h),
+        (fun h => by cases h), (fun h => by cases h)⟩
+      by_cases hp : p = 0
+      · subst hp
+        have := hc.ata rfl i j
+        simp only [ne_eq, not_true, decide_false, Bool.and_false, Bool.false_eq_true, if_false, this,
+          Finset.univ_eq_empty, Finset.sum_empty]
+      · cases optA
+        · simp only [Bool.false_and, Bool.false_eq_true, if_false, hc.ata rfl i j, sumA rfl i j]
+        · simp only [ne_eq, hp, not_false_eq_true, decide_true, Bool.and_true, if_true, denseATA_get]
+    simp only [KKT.updateData]
+    split
+    · exact ⟨refresh_cachesOk _ _ _ h1, fun _ _ _ => refresh_coherent _ _ _ h1⟩
+    · rename_i hany
+      have hany' : (optP || optA || optG) = false := by simpa using hany
+      refine ⟨h1, fun hl hu hco => ?_⟩
+      have hA : optA = false := by simp only [Bool.or_eq_false_iff] at hany'; exact hany'.1.2
+      have hG : optG = false := by simp only [Bool.or_eq_false_iff] at hany'; exact hany'.2
+      subst hA hG
+      simpa using hnone hco hany' hl hu
+  · -- full
+    have hPs : optP = false → d.Psym = d0.Psym := fun h => by simp only [Data.Psym, hf.hP h]
+    have hpd := hc.full_pdiag rfl; have hoff := hc.full_off rfl; have hxy := hc.full_xy rfl; have hxz := hc.full_xz rfl
+    refine ⟨⟨fun h => by simp [Backend.keepY] at h, fun h => by simp [Backend.keepZ] at h, fun _ j => ?_, fun _ i j hij => ?_,
+      fun _ => ?_, fun _ => ?_⟩, fun hl hu hco => ⟨fun i j => ?_, fun _ => ?_, fun _ t => ?_, fun _ => ?_, fun _ t => ?_⟩⟩
+    · cases optP <;> cases optA <;> cases optG <;>
+        simp only [KKT.updateData, Bool.false_eq_true, if_false, if_true, ofFn_get, hpd] <;>
+        rw [hf.hP rfl]
+    · cases optP <;> cases optA <;> cases optG <;>
+        simp only [KKT.updateData, Bool.false_eq_true, if_false, if_true, setDiag, matOfFn_get, hij, hoff i j hij] <;>
+        rw [hPs rfl]
+    · cases optP <;> cases optA <;> cases optG <;>
+        simp only [KKT.updateData, Bool.false_eq_true, if_false, if_true, hxy] <;>
+        rw [hf.hA rfl]
+    · cases optP <;> cases optA <;> cases optG <;>
+        simp only [KKT.updateData, Bool.false_eq_true, if_false, if_true, hxz] <;>
+        rw [hf.hG rfl]
+    · -- xx
+      have hx0 := hco.xx i j
+      simp only [boxTerm, ← hl, ← hu, Backend.keepY, Backend.keepZ, if_true, add_zero] at hx0
+      cases optP
+      · have e : (KKT.updateData Backend.full d k false optA optG).k.xx = k.k.xx := by
+          cases optA <;> cases optG <;> simp only [KKT.updateData, Bool.false_eq_true, if_false, if_true]
+        have e2 : boxTerm d (KKT.updateData Backend.full d k false optA optG) i = boxTerm d k i := by
+          cases optA <;> cases optG <;> simp only [KKT.updateData, Bool.false_eq_true, if_false, if_true, boxTerm]
+        have e3 : (KKT.updateData Backend.full d k false optA optG).rho = k.rho := by
+          cases optA <;> cases optG <;> simp only [KKT.updateData, Bool.false_eq_true, if_false, if_true]
+        rw [e, e2, e3, hx0, hPs rfl]
+        simp only [boxTerm, Backend.keepY, Backend.keepZ, if_true, add_zero]
+      · have e : (KKT.updateData Backend.full d k true optA optG).k.xx =
+            setDiag d.Psym (Vector.ofFn fun j => (Vector.ofFn fun j => d.P[j][j])[j] + k.rho +
+              (boxDiag d k.zinv_lb k.s_lb k.zinv_ub k.s_ub k.delta)[j]) := by
+          cases optA <;> cases optG <;> simp only [KKT.updateData, Bool.false_eq_true, if_false, if_true]
+        have e2 : boxTerm d (KKT.updateData Backend.full d k true optA optG) i = boxTerm d k i := by
+          cases optA <;> cases optG <;> simp only [KKT.updateData, Bool.false_eq_true, if_false, if_true, boxTerm]
+        have e3 : (KKT.updateData Backend.full d k true optA optG).rho = k.rho := by
+          cases optA <;> cases optG <;> simp only [KKT.updateData, Bool.false_eq_true, if_false, if_true]
+        rw [e, e2, e3]
+        simp only [setDiag, matOfFn_get, ofFn_get, boxDiag_get, Backend.keepY, Backend.keepZ, if_true, add_zero]
+        by_cases hij : i = j
+        · subst hij; simp only [if_true, Data.Psym, matOfFn_get, le_refl]
+        · simp only [hij, if_false, add_zero]
+    · cases optP <;> cases optA <;> cases optG <;>
+        simp only [KKT.updateData, Bool.false_eq_true, if_false, if_true, hxy] <;>
+        rw [hf.hA rfl]
+    · have := hco.yy rfl t
+      cases optP <;> cases optA <;> cases optG <;>
+        simpa only [KKT.updateData, Bool.false_eq_true, if_false, if_true] using this
+    · cases optP <;> cases optA <;> cases optG <;>
+        simp only [KKT.updateData, Bool.false_eq_true, if_false, if_true, hxz] <;>
+        rw [hf.hG rfl]
+    · have := hco.zz rfl t
+      cases optP <;> cases optA <;> cases optG <;>
+        simpa only [KKT.updateData, Bool.false_eq_true, if_false, if_true] using this
+  · -- eq eliminated
+    have h1 : CachesOk .eqElim d (if optA = true then { k with ac := Mat.transpose d.AT, ata := mkATA (Mat.transpose d.AT) d.AT } else k) := by
+      refine ⟨fun _ i j => ?_, fun h => by simp [Backend.keepZ] at h, (fun h => by cases h), (fun h => by cases h),
+        (fun h => by cases h), (fun h => by cases h)⟩
+      cases optA
+      · simp only [Bool.false_eq_true, if_false, hc.ata rfl i j, sumA rfl i j]
+      · simp only [if_true]; exact mkATA_get _ _ (fun t j => transpose_get d.AT j t) i j
+    simp only [KKT.updateData, Backend.keepY, Backend.keepZ, Bool.not_false, Bool.and_true, Bool.not_true, Bool.and_false,
+      Bool.false_eq_true, if_false]
+    split
+    · exact ⟨refresh_cachesOk _ _ _ h1, fun _ _ _ => refresh_coherent _ _ _ h1⟩
+    · rename_i hany
+      have hany' : (optP || optA || optG) = false := by simpa using hany
+      refine ⟨h1, fun hl hu hco => ?_⟩
+      have hA : optA = false := by simp only [Bool.or_eq_false_iff] at hany'; exact hany'.1.2
+      have hG : optG = false := by simp only [Bool.or_eq_false_iff] at hany'; exact hany'.2
+      subst hA hG
+      simpa using hnone hco hany' hl hu
+  · -- ineq eliminated
+    have h1 : CachesOk .ineqElim d (if optG = true then { k with gc := Mat.transpose d.GT } else k) := by
+      refine ⟨fun h => by simp [Backend.keepY] at h, fun _ _ t j => ?_, (fun h => by cases h), (fun h => by cases h),
+        (fun h => by cases h), (fun h => by cases h)⟩
+      cases optG
+      · simp only [Bool.false_eq_true, if_false, hc.gc rfl rfl t j, hf.hG rfl]
+      · simp only [if_true]; exact transpose_get d.GT j t
+    simp only [KKT.updateData, Backend.keepY, Backend.keepZ, Bool.not_false, Bool.and_true, Bool.not_true, Bool.and_false,
+      Bool.false_eq_true, if_false]
+    split
+    · exact ⟨refresh_cachesOk _ _ _ h1, fun _ _ _ => refresh_coherent _ _ _ h1⟩
+    · rename_i hany
+      have hany' : (optP || optA || optG) = false := by simpa using hany
+      refine ⟨h1, fun hl hu hco => ?_⟩
+      have hA : optA = false := by simp only [Bool.or_eq_false_iff] at hany'; exact hany'.1.2
+      have hG : optG = false := by simp only [Bool.or_eq_false_iff] at hany'; exact hany'.2
+      subst hA hG
+      simpa using hnone hco hany' hl hu
+  · -- all eliminated
+    have h1 : CachesOk .allElim d
+        (if optG = true then
+          { (if optA = true then { k with ac := Mat.transpose d.AT, ata := mkATA (Mat.transpose d.AT) d.AT } else k) with
+            gc := Mat.transpose d.GT }
+         else (if optA = true then { k with ac := Mat.transpose d.AT, ata := mkATA (Mat.transpose d.AT) d.AT } else k)) := by
+      refine ⟨fun _ i j => ?_, fun _ _ t j => ?_, (fun h => by cases h), (fun h => by cases h),
+        (fun h => by cases h), (fun h => by cases h)⟩
+      · cases optA <;> cases optG <;> simp only [Bool.false_eq_true, if_false, if_true, hc.ata rfl i j]
+        · exact sumA rfl i j
+        · exact sumA rfl i j
+        · exact mkATA_get _ _ (fun t j => transpose_get d.AT j t) i j
+        · exact mkATA_get _ _ (fun t j => transpose_get d.AT j t) i j
+      · cases optA <;> cases optG <;> simp only [Bool.false_eq_true, if_false, if_true, hc.gc rfl rfl t j]
+        · rw [hf.hG rfl]
+        · exact transpose_get d.GT j t
+        · rw [hf.hG rfl]
+        · exact transpose_get d.GT j t
+    simp only [KKT.updateData, Backend.keepY, Backend.keepZ, Bool.not_false, Bool.and_true, Bool.not_true, Bool.and_false,
+      Bool.false_eq_true, if_false]
+    split
+    · exact ⟨refresh_cachesOk _ _ _ h1, fun _ _ _ => refresh_coherent _ _ _ h1⟩
+    · rename_i hany
+      have hany' : (optP || optA || optG) = false := by simpa using hany
+      refine ⟨h1, fun hl hu hco => ?_⟩
+      have hA : optA = false := by simp only [Bool.or_eq_false_iff] at hany'; exact hany'.1.2
+      have hG : optG = false := by simp only [Bool.or_eq_false_iff] at hany'; exact hany'.2
+      subst hA hG
+      simpa using hnone hco hany' hl hu
+
+/-! ## Iterative refinement -/
+
+section refinement
+variable [IsStrictOrderedRing K]
+
+
+theorem vabs_nonneg (a : K) : 0 ≤ vabs a := by
+  unfold vabs; split
+  · rename_i h; exact le_of_lt (neg_pos.mpr h)
+  · rename_i h; exact not_lt.mp h
+
+theorem le_vmax_left (a b : K) : a ≤ vmax a b := by
+  unfold vmax; split
+  · rename_i h; exact le_of_lt h
+  · exact le_refl a
+
+theorem maxFin_ge_init (init : K) : ∀ (q : Nat) (f : Fin q → K), init ≤ maxFin init q f
+  | 0, _ => le_refl _
+  | q + 1, f => le_trans (maxFin_ge_init init q _) (le_vmax_left _ _)
+
+theorem infNorm_nonneg {q : Nat} (v : Vec K q) : 0 ≤ Vec.infNorm v := by
+  unfold Vec.infNorm; split
+  · exact le_trans (vabs_nonneg _) (maxFin_ge_init _ _ _)
+  · exact le_refl 0
+
+theorem redNorm_nonneg (be : Backend) (x : Vec K n) (y : Vec K p) (z : Vec K m) : 0 ≤ redNorm be x y z := by
+  unfold redNorm
+  have h0 := infNorm_nonneg x
+  cases be.keepY <;> cases be.keepZ <;> simp only [Bool.false_eq_true, if_false, if_true]
+  · exact h0
+  · exact le_trans h0 (le_vmax_left _ _)
+  · exact le_trans h0 (le_vmax_left _ _)
+  · exact le_trans (le_trans h0 (le_vmax_left _ _)) (le_vmax_left _ _)
+
+/-- norm of the reduced residual of a candidate solution -/
+def resNorm (be : Backend) (ku : KBlocks K n p m) (rx : Vec K n) (ry : Vec K p) (rz : Vec K m)
+    (sol : Vec K n × Vec K p × Vec K m) : K :=
+  let e := redResidual be ku rx ry rz sol.1 sol.2.1 sol.2.2
+  redNorm be e.1 e.2.1 e.2.2
+
+/-- **C13, refinement.**  With a verified setting (`min_improvement_rate ≥ 1`) the refinement loop never returns a
+    candidate whose reduced residual is larger than that of the candidate it was started from. -/
+theorem refineLoop_not_worse (be : Backend) (st : KKTSettings K) (slv : SolveFn K n p m) (ku : KBlocks K n p m)
+    (rx : Vec K n) (ry : Vec K p) (rz : Vec K m) (rhsNorm : K) (hmin : 1 ≤ st.refMinRate) :
+    ∀ (fuel : Nat) (sol err : Vec K n × Vec K p × Vec K m) (errNorm : K),
+      errNorm = resNorm be ku rx ry rz sol →
+      resNorm be ku rx ry rz (refineLoop be st slv ku rx ry rz rhsNorm fuel sol err errNorm) ≤ errNorm := by
+  intro fuel
+  induction fuel with
+  | zero => intro sol err errNorm h; simp only [refineLoop]; exact le_of_eq h.symm
+  | succ fuel ih =>
+    intro sol err errNorm h
+    simp only [refineLoop]
+    split
+    · exact le_of_eq h.symm
+    · -- one refinement step
+      set ref : Vec K n × Vec K p × Vec K m :=
+        (Vector.ofFn fun i => sol.1[i] + (slv err.1 err.2.1 err.2.2).1[i],
+         Vector.ofFn fun i => sol.2.1[i] + (slv err.1 err.2.1 err.2.2).2.1[i],
+         Vector.ofFn fun i => sol.2.2[i] + (slv err.1 err.2.1 err.2.2).2.2[i]) with href
+      have hn' : 0 ≤ resNorm be ku rx ry rz ref := redNorm_nonneg _ _ _ _
+      have key : 1 ≤ errNorm / resNorm be ku rx ry rz ref → resNorm be ku rx ry rz ref ≤ errNorm := by
+        intro h1
+        rcases eq_or_lt_of_le hn' with h0 | hpos
+        · rw [← h0, div_zero] at h1; exact absurd h1 (by norm_num)
+        · exact (one_le_div hpos).mp h1
+      show resNorm be ku rx ry rz (if errNorm / resNorm be ku rx ry rz ref < st.refMinRate then
+          (if 1 < errNorm / resNorm be ku rx ry rz ref then ref else sol)
+        else refineLoop be st slv ku rx ry rz rhsNorm fuel ref (redResidual be ku rx ry rz ref.1 ref.2.1 ref.2.2)
+          (resNorm be ku rx ry rz ref)) ≤ errNorm
+      split
+      · split
+        · rename_i h1; exact key (le_of_lt h1)
+        · exact le_of_eq h.symm
+      · rename_i hr
+        have h1 : 1 ≤ errNorm / resNorm be ku rx ry rz ref := le_trans hmin (not_lt.mp hr)
+        exact le_trans (ih ref _ _ rfl) (key h1)
+
+/-- at the level of `KKT.solve`: the reduced solution the refined solve recovers from is never worse (in the
+    ∞-norm of the reduced residual) than the unrefined one -/
+theorem solve_refined_not_worse (be : Backend) (st : KKTSettings K) (d : Data K n p m) (k : KKT K n p m)
+    (r old out : Step K n p m) (slv : SolveFn K n p m) (hf : k.fsol = some slv) (hmin : 1 ≤ st.refMinRate)
+    (h : KKT.solve be st d k r old true = some out) :
+    ∃ sol, out = recover be d k r old sol ∧
+      resNorm be k.k (rxOf be d k r) r.y (zbarOf be k r) sol ≤
+        resNorm be k.k (rxOf be d k r) r.y (zbarOf be k r) (slv (rxOf be d k r) r.y (zbarOf be k r)) := by
+  unfold KKT.solve at h
+  simp only [hf, Bool.true_and, Option.some.injEq] at h
+  by_cases hmi : st.refMaxIter ≠ 0
+  · have hd : decide (st.refMaxIter ≠ 0) = true := by simpa using hmi
+    simp only [hd, if_true] at h
+    exact ⟨_, h.symm, refineLoop_not_worse be st slv k.k _ _ _ _ hmin _ _ _ _ rfl⟩
+  · have hd : decide (st.refMaxIter ≠ 0) = false := by simpa using hmi
+    simp only [hd, Bool.false_eq_true, if_false] at h
+    exact ⟨_, h.symm, le_refl _⟩
+
+/-- an inner factorisation routine that, whenever it succeeds, solves the system it was given -/
+def ExactInner (be : Backend) (inner : Inner K n p m) : Prop :=
+  ∀ kb slv, inner kb = some slv → InnerExact be kb slv
+
+/-- **C13, end to end at the KKT-class level.** factorise (no static regularisation) then solve: the step solves the
+    full system for the current data and scalings, for every back end and every exact inner factorisation. -/
+theorem factor_then_solve_exact (be : Backend) (st : KKTSettings K) (d : Data K n p m) (k : KKT K n p m)
+    (r old out : Step K n p m) (inner : Inner K n p m)
+    (hcoh : Coherent be d k) (hin : Interior d k) (hinner : ExactInner be inner)
+    (h : KKT.solve be st d (KKT.regFactor be st d k false inner) r old false = some out) :
+    let back := KKT.multiply d k out old
+    (∀ j : Fin n, back.x[j] = r.x[j]) ∧ (∀ t : Fin p, back.y[t] = r.y[t]) ∧ (∀ t : Fin m, back.z[t] = r.z[t]) ∧
+    (∀ t : Fin m, back.s[t] = r.s[t]) ∧
+    (∀ a : Fin n, back.z_lb[a] = if d.lb.act a then r.z_lb[a] else old.z_lb[a]) ∧
+    (∀ a : Fin n, back.s_lb[a] = if d.lb.act a then r.s_lb[a] else old.s_lb[a]) ∧
+    (∀ a : Fin n, back.z_ub[a] = if d.ub.act a then r.z_ub[a] else old.z_ub[a]) ∧
+    (∀ a : Fin n, back.s_ub[a] = if d.ub.act a then r.s_ub[a] else old.s_ub[a]) := by
+  cases hs : inner k.k with
+  | none =>
+    have : (KKT.regFactor be st d k false inner).fsol = none := by simp [KKT.regFactor, hs]
+    unfold KKT.solve at h
+    simp [this] at h
+  | some slv =>
+    have hf : (KKT.regFactor be st d k false inner).fsol = some slv := by simp [KKT.regFactor, hs]
+    have hcoh' : Coherent be d (KKT.regFactor be st d k false inner) := ⟨hcoh.xx, hcoh.xy, hcoh.yy, hcoh.xz, hcoh.zz⟩
+    have hin' : Interior d (KKT.regFactor be st d k false inner) :=
+      ⟨hin.delta, hin.zinv, hin.s, hin.w, hin.zinv_lb, hin.s_lb, hin.w_lb, hin.zinv_ub, hin.s_ub, hin.w_ub⟩
+    have res := solve_solves_full_system be st d (KKT.regFactor be st d k false inner) r old out slv hf hcoh' (hinner _ _ hs) hin' h
+    exact res
+
+end refinement
 
 end Piqp.C13
